@@ -466,7 +466,9 @@ pub fn c01_families(tier: Tier) -> Vec<Family> {
         for init in INITS {
             for a in &mine {
                 for b in &theirs {
-                    if tier == Tier::Quick && b.contains(&T::Flush) && a[0] != T::Set {
+                    // read-modify-write commands racing a flush of their own key are C04's known
+                    // non-atomicity (get then set), not C01's subject: flush only against set/get
+                    if b.contains(&T::Flush) && a.iter().any(|t| !matches!(t, T::Set | T::Get)) {
                         continue;
                     }
                     progs.push(mk(init, vec![a.clone(), b.clone()], K, other, keys.clone(), Policy::None));
